@@ -276,6 +276,7 @@ func refParse(s string) ([]node, string) {
 
 var escapedPair = regexp.MustCompile(`\\.`)
 var reWildBeforeFinalDoublestar = regexp.MustCompile(`[*?][^/]*/\*\*$`)
+var reDoublestarThenStars = regexp.MustCompile(`/\*\*(/\*)+$`)
 var reStarBrace = regexp.MustCompile(`\*[{}]|[{}]\*`)
 
 func constructClass(raw string, expansions []string) string {
@@ -295,12 +296,18 @@ func constructClass(raw string, expansions []string) string {
 		return "three-or-more-stars" // '***' is reduced to '*', '****' to '**'; doublestar reads both as '*'
 	case reStarBrace.MatchString(mask(raw)):
 		return "star-next-to-brace" // doublestar classifies '**' before expanding groups, variants after
-	case has(func(e string) bool { return strings.Contains(e, "/**/**") }):
-		return "consecutive-doublestars" // '/**/**x' is reduced to '/*x'; doublestar does not special-case a final '/**/**'
-	case has(func(e string) bool { return strings.HasSuffix(e, "/**/*") }):
-		return "doublestar-star-at-end" // '/**/*' is reduced to '/**', which also matches the directory itself
+	case has(func(e string) bool { return strings.Contains(e, "/**/**") || strings.Contains(e, "/**/*/**") }):
+		// '/**/**x' is reduced to '/*x' (and '/**/*/**x' to '/*/*x', because '/**/*/' is first reordered to
+		// '/*/**/'); doublestar does not special-case a final '/**/**'
+		return "consecutive-doublestars"
+	case has(func(e string) bool { return reDoublestarThenStars.MatchString(e) }):
+		return "doublestar-star-at-end" // a final '/**/*' is reduced to '/**', which also matches the directory itself
 	case has(func(e string) bool { return reWildBeforeFinalDoublestar.MatchString(e) }):
 		return "wildcard-segment-before-final-doublestar" // doublestar: '/a*/**' does not match '/a' although '/a/**' does
+	case !strings.HasSuffix(raw, "/") && has(func(e string) bool { return strings.HasSuffix(e, "/**/") }):
+		// the "ends in '/' ⇒ directories only" guard of PathPatternMatches looks at the last character of the
+		// unexpanded pattern; doublestar lets '/a/**/' match '/a'
+		return "group-hides-final-doublestar-slash"
 	}
 	return ""
 }
@@ -458,9 +465,10 @@ type variantInfo struct {
 }
 
 type checker struct {
-	r     *eng.Run
-	col   *collector
-	paths []string
+	r       *eng.Run
+	col     *collector
+	paths   []string
+	pathIdx map[string]int
 
 	mu       sync.Mutex
 	variants map[string]*variantInfo
@@ -612,6 +620,18 @@ func (c *checker) checkVariantPaths(vi *variantInfo) (evals int64) {
 			c.col.add("regex-misses-match", vs+"@"+path, fmt.Sprintf("variant %q matches %q (PathPatternMatches) but its own regex does not: Compare/HighestPrecedencePattern fail with an internal error", vs, path),
 				vCase{Kind: "variant", Pattern: vs, Path: path})
 		}
+		// documented directory rules of PathPatternMatches
+		if dm && strings.HasSuffix(vs, "/") && !strings.HasSuffix(path, "/") {
+			c.col.add("dir-pattern-matches-file", vs+"@"+path, fmt.Sprintf("variant %q ends in '/' but matches %q which does not", vs, path), vCase{Kind: "variant", Pattern: vs, Path: path})
+		}
+		if dm && !strings.HasSuffix(vs, "/") && !strings.HasSuffix(path, "/") {
+			if j, ok := c.pathIdx[path+"/"]; ok {
+				dm2, _ := patterns.PathPatternMatches(vs, c.paths[j])
+				if !dm2 {
+					c.col.add("file-pattern-misses-dir", vs+"@"+path, fmt.Sprintf("variant %q (no trailing '/') matches %q but not %q", vs, path, path+"/"), vCase{Kind: "variant", Pattern: vs, Path: path})
+				}
+			}
+		}
 		if rm && !dm {
 			// not judged: Compare is only defined on variants that match the path; recorded per construct class
 			cl := constructClass(vs, []string{vs})
@@ -619,7 +639,7 @@ func (c *checker) checkVariantPaths(vi *variantInfo) (evals int64) {
 				cl = "core"
 			}
 			c.r.Add("observed_regex_matches_where_doublestar_does_not:"+cl, 1)
-			if cl == "core" && c.r.WantSample() {
+			if cl == "core" {
 				c.r.Distinct("observed_regex_only_core_example", vs+"@"+path)
 			}
 		}
@@ -834,6 +854,9 @@ func generalisations(tokens []string) []string {
 			break
 		}
 		for _, g := range repl[t] {
+			if strings.HasSuffix(g, "*") && i+1 < len(tokens) && strings.HasPrefix(tokens[i+1], "*") {
+				continue // the new '*' would fuse with the next token into '**' (a different construct, not a widening)
+			}
 			s := strings.Join(tokens[:i], "") + g + strings.Join(tokens[i+1:], "")
 			out = append(out, s)
 		}
@@ -934,7 +957,7 @@ func TestC37(t *testing.T) {
 		pathIdx[p] = i
 	}
 	col := newCollector(12)
-	c := &checker{r: r, col: col, paths: paths, variants: map[string]*variantInfo{}}
+	c := &checker{r: r, col: col, paths: paths, pathIdx: pathIdx, variants: map[string]*variantInfo{}}
 
 	if rc := r.ReplayCase(); rc != nil {
 		var cs vCase
